@@ -835,6 +835,9 @@ func (f *Frame) callWrites(c *ssa.CallCommon) ([]string, bool) {
 	if _, ok := libSpecial[name]; ok {
 		return libSpecialWrites(f, name, c)
 	}
+	if w, ok := libExtWrites[name]; ok {
+		return w(f, c)
+	}
 	if isEffectFree(name) {
 		return []string{"next"}, false
 	}
@@ -1771,7 +1774,7 @@ type implicitLock struct {
 }
 
 // implicitLocks: locks a function acquires on objects that are its parameters (must not be held by the caller)
-func (p *Program) implicitLocks(fn *ssa.Function) []implicitLock {
+func (p *Program) implicitLocksLegacy(fn *ssa.Function) []implicitLock {
 	if p.implLocks == nil {
 		p.implLocks = map[*ssa.Function][]implicitLock{}
 	}
